@@ -94,10 +94,28 @@ func (r *c08Runner) lease(c int) *message.ChannelLog {
 	return r.leases[c]
 }
 
+// c08PollCtx reports cancellation from its k-th Err() poll on (the storage code polls ctx.Err()
+// between iterations; nothing selects on Done()).
+type c08PollCtx struct {
+	context.Context
+	polls int
+	k     int
+}
+
+func (p *c08PollCtx) Err() error {
+	p.polls++
+	if p.polls >= p.k {
+		return context.Canceled
+	}
+	return nil
+}
+
 func c08Err(err error) string {
 	switch {
 	case err == nil:
 		return "ok"
+	case errors.Is(err, context.Canceled):
+		return "err:cancelled"
 	case errors.Is(err, db.ErrInvalidArgument):
 		return "err:invalid"
 	case errors.Is(err, db.ErrConflict):
@@ -223,10 +241,25 @@ func (r *c08Runner) Step(op string) string {
 	}
 	c := int(cv)
 	switch f[0] {
-	case "app", "fetch":
+	case "app", "fetch", "appc":
 		var mode, base uint64
 		var rest []string
-		if f[0] == "app" {
+		actx := ctx
+		if f[0] == "appc" { // appc c mode base k rec... : Append under a context cancelled from its k-th poll
+			if len(f) < 5 {
+				return "bad-op"
+			}
+			var ok1, ok2, ok3 bool
+			var k uint64
+			mode, ok1 = c08Num(f[2])
+			base, ok2 = c08Num(f[3])
+			k, ok3 = c08Num(f[4])
+			if !ok1 || !ok2 || !ok3 || mode > 1 || k == 0 {
+				return "bad-op"
+			}
+			actx = &c08PollCtx{Context: ctx, k: int(k)}
+			rest = f[5:]
+		} else if f[0] == "app" {
 			if len(f) < 4 {
 				return "bad-op"
 			}
@@ -259,8 +292,8 @@ func (r *c08Runner) Step(op string) string {
 		s0, r0 := r.counters()
 		var res message.AppendResult
 		var err error
-		if f[0] == "app" {
-			res, err = r.lease(c).Append(ctx, recs, message.AppendOptions{Mode: message.AppendMode(mode), BaseSeq: base})
+		if f[0] != "fetch" {
+			res, err = r.lease(c).Append(actx, recs, message.AppendOptions{Mode: message.AppendMode(mode), BaseSeq: base})
 		} else {
 			res, err = r.lease(c).ApplyFetch(ctx, message.ApplyFetchRequest{BaseSeq: base, Records: recs})
 		}
